@@ -80,7 +80,9 @@ fn main() -> ExitCode {
             };
             let file_name = entry.file_name().to_string_lossy();
 
-            if file_name.ends_with(".asn") || file_name.ends_with(".asn1") {
+            if entry.file_type().is_file()
+                && (file_name.ends_with(".asn") || file_name.ends_with(".asn1"))
+            {
                 eprintln!("{}: Found ASN1 module {}", "info".blue(), file_name);
                 modules.push(entry.into_path());
                 module_found = true;
